@@ -64,7 +64,7 @@ func GenFonts(t *rapid.T) []FontSpec {
 	n := rapid.IntRange(1, 3).Draw(t, "nFonts")
 	var fonts []FontSpec
 	for i := 0; i < n; i++ {
-		kind := rapid.SampledFrom([]string{"t1std", "t1win", "t1mac", "ttwin", "ttmac", "ttembed", "tu1", "type0", "t1dstd", "t1dwin", "t1dmac"}).Draw(t, "fontKind")
+		kind := rapid.SampledFrom([]string{"t1std", "t1win", "t1mac", "ttwin", "ttmac", "ttembed", "tu1", "type0", "t1dstd", "t1dwin", "t1dmac", "tu1bad"}).Draw(t, "fontKind")
 		f := FontSpec{Res: fmt.Sprintf("F%d", i+1), Kind: kind}
 		switch kind {
 		case "t1dstd", "t1dwin", "t1dmac":
@@ -74,6 +74,9 @@ func GenFonts(t *rapid.T) []FontSpec {
 			f.Base = rapid.SampledFrom(stdBases).Draw(t, "base")
 		case "ttwin", "ttmac", "ttembed":
 			f.Base = rapid.SampledFrom(ttBases).Draw(t, "base")
+		case "tu1bad":
+			f.Base = rapid.SampledFrom(ttBases).Draw(t, "base")
+			f.Map = genMap(t, 1)
 		case "tu1":
 			if i%2 == 0 {
 				f.Base = rapid.SampledFrom(stdBases).Draw(t, "base")
@@ -174,7 +177,7 @@ func GenLine(t *rapid.T, fonts []FontSpec, fi int, marker string) (bytes []byte,
 	f := fonts[fi]
 	n := rapid.IntRange(1, 12).Draw(t, "lineLen")
 	switch f.Kind {
-	case "tu1", "type0":
+	case "tu1", "tu1bad", "type0":
 		for i := 0; i < n; i++ {
 			e := f.Map[rapid.IntRange(0, len(f.Map)-1).Draw(t, "ent")]
 			if f.Kind == "type0" {
@@ -303,6 +306,7 @@ func GenLayout(t *rapid.T, nRev int) Layout {
 	l.ResIndirect = b("resIndirect")
 	l.FontDictInd = b("fontDictInd")
 	l.CIDInfoInd = b("cidInfoInd")
+	l.XRefW3Zero = b("xrefW3Zero")
 	l.ToUniFlate = b("toUniFlate")
 	l.ReuseFreed = b("reuseFreed")
 	l.FreeDeleted = b("freeDeleted")
